@@ -6,6 +6,7 @@ import (
 	"os"
 	"path/filepath"
 	"sync"
+	"time"
 
 	"github.com/bolkedebruin/rdpgw/shared/auth"
 	"google.golang.org/grpc"
@@ -24,6 +25,8 @@ type FakeAuth struct {
 	NTLMUsers map[string]string
 	BasicLog  []BasicCall
 	NTLMLog   []NTLMCall
+	// BasicDelay makes Authenticate slow (to overlap requests)
+	BasicDelay time.Duration
 }
 
 type BasicCall struct {
@@ -55,6 +58,12 @@ func NewFakeAuth(dir string) (*FakeAuth, error) {
 func (f *FakeAuth) Close() { f.srv.Stop() }
 
 func (f *FakeAuth) Authenticate(ctx context.Context, m *auth.UserPass) (*auth.AuthResponse, error) {
+	f.mu.Lock()
+	d := f.BasicDelay
+	f.mu.Unlock()
+	if d > 0 {
+		time.Sleep(d)
+	}
 	f.mu.Lock()
 	defer f.mu.Unlock()
 	pw, ok := f.Passwords[m.Username]
